@@ -321,8 +321,18 @@ func c18Memory(c *Ctx) {
 			r := k.Rand()
 			root, _ := randomTree(r, 1+r.IntN(40), r.IntN(4))
 			k.Input("tree", func() string { return treeKey(root) })
-			stopMonitor(k, "Node.PreOrder", func() rawIter { return raw1(root.PreOrder(), nodeKey) }, stopOpts{})
-			stopMonitor(k, "Node.PostOrder", func() rawIter { return raw1(root.PostOrder(), nodeKey) }, stopOpts{})
+			if k.Idx%2 == 0 {
+				stopMonitor(k, "Node.PreOrder", func() rawIter { return raw1(root.PreOrder(), nodeKey) }, stopOpts{})
+				stopMonitor(k, "Node.PostOrder", func() rawIter { return raw1(root.PostOrder(), nodeKey) }, stopOpts{})
+			} else {
+				// ONE iterator value ranged over again and again (an iter.Seq over
+				// memory is re-iterable): nothing may survive a stopped run.
+				pre, post := raw1(root.PreOrder(), nodeKey), raw1(root.PostOrder(), nodeKey)
+				k.Input("same_iterator_value_reused", true)
+				stopMonitor(k, "Node.PreOrder", func() rawIter { return pre }, stopOpts{})
+				stopMonitor(k, "Node.PostOrder", func() rawIter { return post }, stopOpts{})
+				k.Count("reused_iterator_values", 2)
+			}
 			k.Nontrivial([]byte(treeKey(root)))
 		})
 		idx++
@@ -362,9 +372,16 @@ func c18Memory(c *Ctx) {
 			kk := 1 + r.IntN(8)
 			k.Input("seq", s)
 			k.Input("k", kk)
-			stopMonitor(k, "CanonicalSubsequences", func() rawIter {
-				return raw1(sequtil.CanonicalSubsequences(s, kk), func(b []byte) string { return string(b) })
-			}, stopOpts{})
+			if k.Idx%2 == 0 {
+				stopMonitor(k, "CanonicalSubsequences", func() rawIter {
+					return raw1(sequtil.CanonicalSubsequences(s, kk), func(b []byte) string { return string(b) })
+				}, stopOpts{})
+			} else {
+				one := raw1(sequtil.CanonicalSubsequences(s, kk), func(b []byte) string { return string(b) })
+				k.Input("same_iterator_value_reused", true)
+				stopMonitor(k, "CanonicalSubsequences", func() rawIter { return one }, stopOpts{})
+				k.Count("reused_iterator_values", 1)
+			}
 			k.Nontrivial(s, []byte{byte(kk)})
 		})
 		idx++
